@@ -581,8 +581,20 @@ def _orderings(ns):
     return out
 
 
+# configurations of the thorough tier (pattern b) at which SLSQP stops early with success=True for
+# 1e3-mol feeds; visited in the quick tier too so that the corresponding known finding is exercised
+HARD_POINTS = [
+    dict(net='HO6', pat='b', spread=60.0, feed='unit:H2O', scale=1e3, T=1000.0, P=0.01, order=[2, 3, 4, 5, 0, 1],
+         prior=None),
+    dict(net='HO4', pat='b', spread=-60.0, feed='unit:OH', scale=1e3, T=1000.0, P=0.01, order=[2, 3, 1, 0],
+         prior=None),
+]
+
+
 def shards(tier):
     out = []
+    if tier == 'quick':
+        out.append(dict(net='(hard points)', tier=tier))
     pats = ['a'] if tier == 'quick' else ['a', 'b']
     for net in _nets(tier):
         for pat in pats:
@@ -598,6 +610,10 @@ def shards(tier):
 def _cases(shard):
     tier = shard['tier']
     net = shard['net']
+    if net == '(hard points)':
+        for c in HARD_POINTS:
+            yield dict(c)
+        return
     if net == BUNDLED:
         ns = len(BUNDLED_SPECIES)
         ident = list(range(ns))
